@@ -39,9 +39,9 @@ _TS = {}
 def _code_hash():
     h = hashlib.sha256()
     d = os.path.dirname(os.path.abspath(__file__))
-    for f in sorted(os.listdir(d)):
-        if f.endswith(".py"):
-            h.update(open(os.path.join(d, f), "rb").read())
+    # only the modules the fixpoint depends on (rule modules may change without invalidating it)
+    for f in ("interp.py", "axioms.py", "typestate.py", "tables.py", "effects.py", "panics.py", "mir.py", "emit.py"):
+        h.update(open(os.path.join(d, f), "rb").read())
     h.update(open(os.path.join(VERIF, "reviewed.json"), "rb").read())
     return h.hexdigest()[:16]
 
